@@ -448,7 +448,7 @@ def gen_streams(ctx, pool, bigpool):
     nmid = 72000 // (sum(len(m["frame"]) // 2 for m in mid) // len(mid)) + 1
     S.append({"cls": "clean", "items": many(nmid, lambda i: mid[i % len(mid)]), "big": True, "many": True})
     if ctx.thorough:
-        S.append({"cls": "clean", "items": many(9000, lambda i: sm[i % len(sm)]), "big": True, "many": True})
+        S.append({"cls": "clean", "items": many(2500, lambda i: sm[i % len(sm)]), "big": True, "many": True})
         S.append({"cls": "clean", "items": many(1500, lambda i: small[(i * 7) % len(small)]), "big": True, "many": True})
     return S
 
@@ -997,7 +997,8 @@ def run(ctx):
             for p, oc in res["table"]:
                 table[p] = oc
             if (ch[0] == "every" and len(st["stream"]) // ch[1] > 3000) or \
-               (not ctx.thorough and len(st["stream"]) > 20000 and sum(len(g) for g in groups.values()) >= (1 if st.get("many") else 2)):
+               (len(st["stream"]) > 20000 and (st.get("many") or not ctx.thorough)
+                and sum(len(g) for g in groups.values()) >= (2 if ctx.thorough or not st.get("many") else 1)):
                 # e.g. 1-byte reads of a 64 KiB stream: run on the implementation (oracle), not re-run in Coq
                 # where each ingest call costs the buffer length; C01_chunking_invariant covers it
                 coq_skipped[0] += 1
